@@ -28,7 +28,15 @@ lean/LdarModel/Generated/Wiring.lean (regenerated on every run).
                             `infra._sites`, the site list of the program's own infrastructure, to Program, which
                             hands the same object to every Method and schedule: pruning it removes the site's
                             emissions from what the program faces
-Fails loudly (RuntimeError -> exit 2) when a function it expects is missing.
+  classLevelContainers      every class-level or module-level name of virtual_world/* and emission_types/* bound to a
+                            mutable container (list / dict / set literal, comprehension or constructor call): state
+                            that would be shared by every infrastructure copy in a process
+  classLevelContainerMutations  statements of those packages that mutate one of these containers in place
+                            (`X.append/extend/update/...`, `X[...] = ...`, `del X[...]`, `X += ...` through the
+                            class, `cls`, `self` or the bare module-level name)
+  cachedFunctions           functions of those packages decorated with lru_cache / cache / cached_property
+Raises RuntimeError when a function it expects is missing; the check turns that into a broken
+obligation and goes on searching for a failing input.
 """
 import ast
 import os
@@ -270,9 +278,91 @@ def _sites_mutations(src):
     return sorted(set(out))
 
 
+CONTAINER_CALLS = ("list", "dict", "set", "defaultdict", "OrderedDict", "deque", "Counter")
+CONTAINER_MUTATORS = MUTATORS + ("update", "add", "discard", "setdefault", "popitem", "appendleft")
+
+
+def _is_container_expr(v):
+    if isinstance(v, (ast.List, ast.Dict, ast.Set, ast.ListComp, ast.DictComp, ast.SetComp)):
+        return True
+    return isinstance(v, ast.Call) and (
+        (isinstance(v.func, ast.Name) and v.func.id in CONTAINER_CALLS)
+        or (isinstance(v.func, ast.Attribute) and v.func.attr in CONTAINER_CALLS))
+
+
+def _shared_containers(src):
+    """(containers, mutations, cached): class-/module-level mutable containers of virtual_world/**, the
+    statements mutating them in place, cache-decorated functions"""
+    base = os.path.join(src, "virtual_world")
+    containers, mutations, cached = [], [], []
+    trees = []
+    for root, _, fs in os.walk(base):
+        for f in sorted(fs):
+            if f.endswith(".py"):
+                path = os.path.join(root, f)
+                trees.append((os.path.relpath(path, src), ast.parse(open(path).read())))
+    trees.sort(key=lambda t: t[0])
+    names = {}   # bare name -> qualified
+    for rel, tree in trees:
+        mod = rel[:-3].replace(os.sep, ".")
+        for node in tree.body:
+            tv = []
+            if isinstance(node, ast.Assign):
+                tv = [(t, node.value) for t in node.targets]
+            elif isinstance(node, ast.AnnAssign) and node.value is not None:
+                tv = [(node.target, node.value)]
+            for t, v in tv:
+                if isinstance(t, ast.Name) and _is_container_expr(v):
+                    containers.append(f"{mod}:{t.id}")
+                    names[t.id] = f"{mod}:{t.id}"
+            if isinstance(node, ast.ClassDef):
+                for n in node.body:
+                    tv = []
+                    if isinstance(n, ast.Assign):
+                        tv = [(t, n.value) for t in n.targets]
+                    elif isinstance(n, ast.AnnAssign) and n.value is not None:
+                        tv = [(n.target, n.value)]
+                    for t, v in tv:
+                        if isinstance(t, ast.Name) and _is_container_expr(v):
+                            containers.append(f"{node.name}.{t.id}")
+                            names[t.id] = f"{node.name}.{t.id}"
+
+    def ref(node):
+        """qualified container name a Name/Attribute expression refers to, else None"""
+        if isinstance(node, ast.Name) and node.id in names and ":" in names[node.id]:
+            return names[node.id]
+        if isinstance(node, ast.Attribute) and node.attr in names and "." in names[node.attr].split(":")[-1]:
+            return names[node.attr]
+        return None
+
+    for rel, tree in trees:
+        for fn in [n for n in ast.walk(tree) if isinstance(n, (ast.FunctionDef, ast.AsyncFunctionDef))]:
+            for d in fn.decorator_list:
+                dn = ast.unparse(d)
+                if any(k in dn for k in ("lru_cache", "functools.cache", "cached_property")) or dn == "cache":
+                    cached.append(f"{rel}:{fn.name}")
+            for n in ast.walk(fn):
+                hit = None
+                if isinstance(n, ast.Call) and isinstance(n.func, ast.Attribute) and n.func.attr in CONTAINER_MUTATORS:
+                    hit = ref(n.func.value)
+                elif isinstance(n, (ast.Assign, ast.Delete)):
+                    for t in n.targets:
+                        if isinstance(t, ast.Subscript) and ref(t.value):
+                            hit = ref(t.value)
+                elif isinstance(n, ast.AugAssign):
+                    hit = ref(n.target) or (ref(n.target.value) if isinstance(n.target, ast.Subscript) else None)
+                if hit:
+                    # `self.x` where x is ALSO assigned per instance in __init__ is an instance attribute
+                    tgt = n.func.value if isinstance(n, ast.Call) else None
+                    mutations.append(f"{rel}:{fn.name}:{n.lineno}:{hit}")
+    return sorted(set(containers)), sorted(set(mutations)), sorted(set(cached))
+
+
 def extract():
     src = shim.REPO_SRC
     facts = {}
+    (facts["classLevelContainers"], facts["classLevelContainerMutations"],
+     facts["cachedFunctions"]) = _shared_containers(src)
     facts["sitesListMutations"] = _sites_mutations(src)
     # --- simulate() ---------------------------------------------------------------------------
     tree = ast.parse(open(os.path.join(src, "simulation", "simulation_helpers.py")).read())
@@ -385,6 +475,8 @@ def write(facts):
     for k in ("simulateDeepCopies", "simulateUsesOnlyCopy", "scenarioLoadedOncePerSim", "generationIgnoresLifecycle"):
         body.append(f"def {k} : Bool := {'true' if facts[k] else 'false'}")
     body.append(f"def customCopyHooks : List String := {_lean_strs(facts['customCopyHooks'])}")
+    for key in ("classLevelContainers", "classLevelContainerMutations", "cachedFunctions"):
+        body.append(f"def {key} : List String := {_lean_strs(facts[key])}")
     body.append(f"def sitesListMutations : List String := {_lean_strs(facts['sitesListMutations'])}")
     body.append(f"def creationLifecycleReads : List String := {_lean_strs(facts['creationLifecycleReads'])}")
     body.append(f"def creationHelpersScanned : List String := {_lean_strs(facts['creationHelpersScanned'])}")
